@@ -33,8 +33,12 @@ type solveOut struct {
 }
 
 func runSolver(s solverSpec, file string, sec int) solveOut {
+	return runSolverCtx(context.Background(), s, file, sec)
+}
+
+func runSolverCtx(parent context.Context, s solverSpec, file string, sec int) solveOut {
 	args := s.Cmd(file, sec)
-	ctx, cancel := context.WithTimeout(context.Background(), time.Duration(sec+3)*time.Second)
+	ctx, cancel := context.WithTimeout(parent, time.Duration(sec+3)*time.Second)
 	defer cancel()
 	cmd := exec.CommandContext(ctx, args[0], args[1:]...)
 	var out bytes.Buffer
@@ -51,6 +55,8 @@ func runSolver(s solverSpec, file string, sec int) solveOut {
 		st = "unsat"
 	case first == "sat":
 		st = "sat"
+	case parent.Err() != nil:
+		st = "cancelled"
 	case first == "timeout" || ctx.Err() != nil || strings.Contains(first, "interrupted") || strings.Contains(first, "time limit"):
 		st = "timeout"
 	case strings.HasPrefix(first, "(error") || strings.Contains(first, "rror"):
@@ -59,7 +65,9 @@ func runSolver(s solverSpec, file string, sec int) solveOut {
 	return solveOut{st, s.Name, el, text}
 }
 
-// Solve discharges one obligation: z3-new first, then the other two raced.
+// Solve discharges one obligation. Stage 1: a short run of the solver that suits the
+// float mode (z3 5.1 for reals, cvc5 for IEEE). Stage 2: all three solvers raced; the
+// first definite answer wins and the others are killed.
 func (vc *VC) Solve(o *Obl, dir string, quickSec, slowSec int, cross bool) {
 	if o.Status != "" {
 		return
@@ -71,53 +79,69 @@ func (vc *VC) Solve(o *Obl, dir string, quickSec, slowSec int, cross bool) {
 		return
 	}
 	o.File = file
-	r := runSolver(solvers[0], file, quickSec)
+	firstIdx := 0
+	if vc.fc != nil && vc.fc.Mode == "fp" {
+		firstIdx = 2
+	}
+	stage1 := 3
+	if quickSec < stage1 {
+		stage1 = quickSec
+	}
+	r := runSolver(solvers[firstIdx], file, stage1)
 	o.TimeS += r.secs
-	if r.status == "unsat" || r.status == "sat" {
-		o.Status, o.Solver, o.Model = r.status, r.solver, r.output
-		if cross && r.status == "unsat" {
-			// thorough tier: a second solver must not contradict
-			for _, s := range solvers[1:] {
-				r2 := runSolver(s, file, slowSec)
-				if r2.status == "sat" {
-					o.Status = "error"
-					o.Model = "solver disagreement: " + r.solver + " unsat, " + r2.solver + " sat\n" + r2.output
-				}
+	if r.status != "unsat" && r.status != "sat" {
+		ctx, cancel := context.WithCancel(context.Background())
+		ch := make(chan solveOut, len(solvers))
+		for _, s := range solvers {
+			go func(s solverSpec) { ch <- runSolverCtx(ctx, s, file, slowSec) }(s)
+		}
+		var rest []solveOut
+		got := false
+		for range solvers {
+			r2 := <-ch
+			rest = append(rest, r2)
+			if r2.status == "unsat" || r2.status == "sat" {
+				r = r2
+				got = true
+				o.TimeS += r2.secs
+				break
 			}
 		}
-		return
-	}
-	first := r
-	var wg sync.WaitGroup
-	res := make([]solveOut, len(solvers)-1)
-	for i, s := range solvers[1:] {
-		wg.Add(1)
-		go func(i int, s solverSpec) {
-			defer wg.Done()
-			res[i] = runSolver(s, file, slowSec)
-		}(i, s)
-	}
-	wg.Wait()
-	for _, r2 := range res {
-		o.TimeS += r2.secs
-		if r2.status == "unsat" {
-			o.Status, o.Solver, o.Model = "unsat", r2.solver, ""
+		cancel()
+		if !got {
+			o.TimeS += float64(slowSec)
+			st := "unknown"
+			for _, r2 := range rest {
+				if r2.status == "timeout" {
+					st = "timeout"
+				}
+			}
+			for _, r2 := range rest {
+				if r2.status == "error" && st == "unknown" {
+					st = "error"
+					r = r2
+				}
+			}
+			o.Status, o.Solver, o.Model = st, r.solver, r.output
 			return
 		}
 	}
-	for _, r2 := range res {
-		if r2.status == "sat" {
-			o.Status, o.Solver, o.Model = "sat", r2.solver, r2.output
-			return
+	o.Status, o.Solver, o.Model = r.status, r.solver, r.output
+	if o.Status == "unsat" {
+		o.Model = ""
+	}
+	if cross && r.status == "unsat" {
+		// thorough tier: no other solver may contradict a proof
+		for _, s := range solvers {
+			if s.Name == r.solver {
+				continue
+			}
+			r2 := runSolver(s, file, quickSec)
+			if r2.status == "sat" {
+				o.Status = "error"
+				o.Model = "solver disagreement: " + r.solver + " unsat, " + r2.solver + " sat\n" + r2.output
+			}
 		}
-	}
-	o.Status, o.Solver, o.Model = first.status, first.solver, first.output
-	if o.Status == "error" {
-		// keep error text
-		return
-	}
-	if o.Status != "timeout" {
-		o.Status = "unknown"
 	}
 }
 
@@ -149,7 +173,7 @@ func SolveAll(items []struct {
 func (vc *VC) satScript(ctxLen int, extra *Term) string {
 	var sb strings.Builder
 	sb.WriteString("(set-logic ALL)\n")
-	sb.WriteString(vc.e.preamble(vc.usesMS(ctxLen, extra)))
+	sb.WriteString(vc.preambleFor(vc.usesMS(ctxLen, extra)))
 	for _, c := range vc.cmds[:ctxLen] {
 		sb.WriteString(c)
 		sb.WriteByte('\n')
